@@ -122,7 +122,7 @@ class Est:
 
 
 SHAPES = ["ring", "ringtail", "clique", "diamond", "parallel", "selfclone", "random", "chain", "twocycles", "fanin", "none",
-          "mutual"]
+          "mutual", "readopt"]
 
 
 def build_shape(rng, e, shape, k, unrecorded_p=0.0):
@@ -196,6 +196,32 @@ def build_shape(rng, e, shape, k, unrecorded_p=0.0):
                 e.edge(i, i + 1, rec())
             for _ in range(n_):
                 e.edge(i + 1, i, rec())
+    elif shape == "readopt":
+        # 0 adopts 1 several times, gives some or all of those handles back (unadopt + take + drop), adopts 1
+        # anew, and only then the cycle through 1 is closed: a Forward/Backward pair whose counts went up, down
+        # and up again (m94: a back link inserted once + an early return in unadopt let the Forward count drift)
+        if k == 1:
+            e.edge(0, 0, rec())
+        else:
+            m = rng.randint(2, 3)
+            for _ in range(m):
+                e.edge(0, 1, rec())
+            for _ in range(rng.randint(1, m)):
+                ia = e.find_root(0)
+                if ia is None:
+                    break
+                before = len(e.roots)
+                e.unlink(ia, rng.randrange(3))
+                if len(e.roots) > before:
+                    e.drop(len(e.roots) - 1)
+            for _ in range(rng.randint(1, 2)):
+                e.edge(0, 1, rec())
+            for i in range(1, k):
+                e.edge(i, (i + 1) % k, rec())
+            if rng.random() < 0.5:
+                ia = e.find_root(0)
+                if ia is not None:
+                    e.drop(ia)
     elif shape == "random":
         for _ in range(rng.randint(1, 2 * k + 1)):
             e.edge(rng.randrange(k), rng.randrange(k), rec())
